@@ -113,9 +113,19 @@ pub fn judge(c: &Case) -> Verdict {
     let mut nt = overlap || after_set;
     if c.exec {
         // semantic check of the emitted comparison
+        // a third of the executed cases: the primary after (or before) a context that is true for
+        // every file - the mode test must mean the same wherever it stands in the expression
+        let h = stable_hash(&(&text, "ctx"));
+        let fmt_m = |nl: bool| { let mut v = vec![FEl::F(Fld::PermOctal), FEl::Lit(" ".into()), FEl::F(Fld::NameNoStart)]; if nl { v.push(FEl::E(Esc::Newline)); } v };
+        let contexts = [E::A(Act::Printf(fmt_m(true))), E::A(Act::Printf(fmt_m(false))), E::A(Act::FPrintf("modes.out".into(), fmt_m(true))), E::A(Act::Print), E::A(Act::Print0), E::T(Tst::Perm(PKind::AtLeast, 0)), E::T(Tst::Type(FT::ALL.to_vec())), E::T(Tst::Name("*".into())), E::T(Tst::True), E::T(Tst::Perm(PKind::AtLeast, 0o000)), E::not(E::T(Tst::Perm(PKind::Any, 0)))];
+        let tree = match h % 6 {
+            0 => E::list(contexts[(h / 6) as usize % contexts.len()].clone(), tree.clone()),
+            1 => E::and(tree.clone(), contexts[(h / 6) as usize % contexts.len()].clone()),
+            _ => tree.clone(),
+        };
         let comp = match policy::compile_tree(&tree, None, "/") {
             CompileOutcome::Ok(c) => c,
-            CompileOutcome::Err(e) => return Verdict::Fail(format!("{text:?}: compile failed: {e}")),
+            CompileOutcome::Err(e) => return Verdict::Fail(format!("{text:?} (compiled as {tree:?}): compile failed: {e}")),
             CompileOutcome::Panic(p) => return Verdict::Fail(format!("{text:?}: compile panicked: {p}")),
         };
         let mut modes: Vec<u32> = if c.all_modes { (0..0o10000).collect() } else { vec![m, 0, 0o7777] };
@@ -150,7 +160,7 @@ pub fn judge(c: &Case) -> Verdict {
                 PKind::Any => f.mode & m != 0,
             };
             if fr.truthy != want {
-                return Verdict::Fail(format!("{text:?} ({k:?}, mode {m:04o}) on a file of mode {:o}: find's rule says {want}, the emitted policy says {}\nprogram:\n{}", f.mode, fr.truthy, comp.text));
+                return Verdict::Fail(format!("{text:?} ({k:?}, mode {m:04o}; compiled as {tree:?}) on a file of mode {:o}: find's rule says {want}, the emitted policy says {}\nprogram:\n{}", f.mode, fr.truthy, comp.text));
             }
         }
         nt = nt || matches!(c.arg, Arg::Octal(_));
@@ -310,7 +320,7 @@ pub fn run(ctx: &Ctx) -> Report {
     total.merge(rnd);
     Report {
         stats: total,
-        rule: "octal: every 12-bit value in 4- and 3-digit spelling; symbolic: all 315 clauses, all 99,225 ordered pairs, random 3-4 clause lists (some of 5..40 clauses), random letter orders/repetitions, and lists of up to 1000 clauses made of one clause plus repetitions of another; each under the prefixes none, '-', '/'. Oracle: chmod model from mode 0 (W = union of who masks, P = perm bits & W; '+': m|=P, '-': m&=~P, '=': m=(m&~W)|P) -> the tree must be Perm(kind(prefix), mode); and semantically: the emitted policy is executed on files with modes {m, m^bit for each of 12 bits, 0, 07777} x {regular file, directory} (a sample on all 4096 modes) and must agree with Equal: mode&07777==m, AtLeast: mode&m==m, Any: mode&m!=0. Non-trivial: list with >=2 clauses whose who-sets overlap, or a '-'/'=' clause after bits were set, or an executed octal case. Distinct: by (prefix, argument).".into(),
+        rule: "octal: every 12-bit value in 4- and 3-digit spelling; symbolic: all 315 clauses, all 99,225 ordered pairs, random 3-4 clause lists (some of 5..40 clauses), random letter orders/repetitions, and lists of up to 1000 clauses made of one clause plus repetitions of another; each under the prefixes none, '-', '/'. Oracle: chmod model from mode 0 (W = union of who masks, P = perm bits & W; '+': m|=P, '-': m&=~P, '=': m=(m&~W)|P) -> the tree must be Perm(kind(prefix), mode); and semantically: the emitted policy is executed on files with modes {m, m^bit for each of 12 bits, 0, 07777} x {regular file, directory} (a sample on all 4096 modes) (a third of them with the primary after or before a context that is true for every file: a formatted print with %m, -print, -print0, -perm -000, -name '*') and must agree with Equal: mode&07777==m, AtLeast: mode&m==m, Any: mode&m!=0. Non-trivial: list with >=2 clauses whose who-sets overlap, or a '-'/'=' clause after bits were set, or an executed octal case. Distinct: by (prefix, argument).".into(),
         assumptions: vec!["'-perm /000' is false for every file (statement of C08: any given bit set), not GNU's special case".into()],
         exhaustive: false,
     }
